@@ -141,6 +141,8 @@ func cmdSyncRun(args []string) int {
 		diverged := ""
 		inflight := false
 		var members []string // readers that share the fetch in flight
+		returned := map[string]bool{} // SyncReadRevision has returned (guarded by fol.mu)
+		noset := map[string]bool{}    // ... without having stored a revision
 		for _, s := range b.Steps {
 			rep.Ops++
 			rep.OpCount[s.A]++
@@ -164,6 +166,13 @@ func cmdSyncRun(args []string) int {
 					fol.mu.Unlock()
 					close(started)
 					err := syncer.SyncReadRevision()
+					fol.mu.Lock()
+					returned[r] = true
+					fol.mu.Unlock()
+					select {
+					case fol.arrived <- r:
+					default:
+					}
 					select {
 					case <-rg: // the Read step
 					case <-over:
@@ -221,8 +230,15 @@ func cmdSyncRun(args []string) int {
 					for arrived := false; !arrived && diverged == ""; {
 						fol.mu.Lock()
 						_, arrived = fol.waiting[m]
+						ret := returned[m]
 						fol.mu.Unlock()
 						if arrived {
+							break
+						}
+						if ret {
+							// the call came back without storing the fetched revision
+							noset[m] = true
+							evs = append(evs, gate.Event{"e": "P", "a": "NoSet", "r": m, "v": 0})
 							break
 						}
 						select {
@@ -235,6 +251,9 @@ func cmdSyncRun(args []string) int {
 				members = nil
 				evs = append(evs, gate.Event{"e": "P", "a": "Deliver", "r": "", "v": s.V})
 			case "Set":
+				if noset[s.R] {
+					continue
+				}
 				// wait until this reader stands at its SetCurrentRevision
 				deadline := time.After(to)
 				for got := false; !got && diverged == ""; {
